@@ -26,7 +26,7 @@ def gen_cases(ck):
                       "mobius": bool(ck.rng.integers(3) == 0), "kmin": 1, "kmax": 4, "angle": float(ck.rng.uniform(0, 6.28)),
                       "scale": float(10.0 ** ck.rng.uniform(-1, 2)), "shift": [float(ck.rng.normal() * 5), float(ck.rng.normal() * 5)],
                       "nframes": int(ck.rng.integers(2, 7)), "field": ["random", "affine", "flow"][int(ck.rng.integers(3))],
-                      "bound_factor": 0.4, "renumber": True, "cm": False, "times": ["equal", "unequal", "unequal"][int(ck.rng.integers(3))],
+                      "bound_factor": 0.4, "renumber": [True, "dense"][i % 2], "cm": False, "times": ["equal", "unequal", "unequal"][int(ck.rng.integers(3))],
                       "b_matrix": ["velocity", "velocity", None][int(ck.rng.integers(3))], "adimensional": bool(ck.rng.integers(2)),
                       "vnorm": float(ck.rng.choice([1.0, 1.0, 0.1, 7.5, 0.0, -2.0])), "drop_vertex": bool(ck.rng.integers(3) == 0)})
     return cases
@@ -83,6 +83,12 @@ def run_case(ck, case, reqs, pending):
                 exp = ((p1.x - p0.x) / dt, (p1.y - p0.y) / dt)
             elif (t < n - 1 and mapping[t].get(v) is None) or (t == n - 1 and v not in mapping[t2].values()):
                 exp = (0.0, 0.0)
+                # the generated motions are inside the tracking bounds (0.4 of them) and every frame is numbered independently: an
+                # interface end point whose physical partner exists must have been tracked (unless the harness removed its entry)
+                if w is not None and v in pools[t] and w in pools[t2] and dropped.get(min(t, t2)) not in (v, w):
+                    ck.fail("velocity = (tracked partner's position - own position) / (difference of the time stamps), for independent numbering of each frame",
+                            f"frame {t} vertex {v}: its partner {w} in frame {t2} exists and moved within the tracking bounds, but it is not tracked "
+                            f"(velocity {tuple(val)})", case)
             else:
                 exp = None   # tracked to something else than the physical successor: C12's business
             want.append(exp)
@@ -148,9 +154,11 @@ def run_case(ck, case, reqs, pending):
         pending.append(("place", case, [float(x) for x in np.array(fm.velocity_matrix_dimensional).flatten()], raw))
     # system velocity per frame
     zero_frames = []
+    rm_default = {}
     for tt in range(n):
         impl.quiet(f.build_force_matrix, when=tt, angle_limit=np.inf)
         rm = f.force_matrices[tt].map_vid_to_row
+        rm_default[tt] = {int(k): int(v_) for k, v_ in rm.items()}
         if rm and all(float(np.hypot(*f.mesh.calculate_velocity(v, tt))) == 0.0 for v in rm):
             zero_frames.append(tt)
     if zero_frames:
@@ -158,9 +166,12 @@ def run_case(ck, case, reqs, pending):
         ck.count("rejected_system_velocity_zero_mean_speed")
         ck.case(case, nontrivial=True)
         return f, frames, s
+    # the frames have served a build with a finite angle limit before the system velocity is asked for (with its default: no limit)
+    for tt in range(n):
+        impl.quiet(f.build_force_matrix, when=tt, angle_limit=0.75 * math.pi)
     sysv = impl.quiet(f.get_system_velocity_per_frame)
     for tt in range(n):
-        rm = f.force_matrices[tt].map_vid_to_row
+        rm = rm_default[tt]
         if rm:
             e = float(np.mean([math.hypot(*f.mesh.calculate_velocity(v, tt)) for v in rm]))
             if abs(sysv[tt] - e) > 1e-12 * abs(e):
